@@ -205,7 +205,8 @@ class DiscriminativeModel(ClusterMixin, BaseEstimator, ABC):
         """
         random_state = check_random_state(random_state)
         all_indices = random_state.permutation(len(X))
-        batch_size = len(X) if self.batch_size is None else self.batch_size
+        # A plain Python integer: narrow numpy integer types (e.g. np.int8) would overflow in the position arithmetic below
+        batch_size = len(X) if self.batch_size is None else int(self.batch_size)
         j = 0
         while j < len(X):
             batch_indices = all_indices[j:j + batch_size]
